@@ -1,6 +1,6 @@
 # Builds asl from /repo's CURRENT working tree (per flavour) and the verification harnesses.
 REPO   ?= /repo
-B      := build
+B      ?= build
 CXX    := g++
 COMMON := -std=c++11 -O2 -g -I$(REPO)/include -I/verif/common -DASL_STATIC -DASL_VERIF -Wno-deprecated-declarations
 ASANF  := -fsanitize=address -fno-omit-frame-pointer -fsanitize-recover=address -ftrivial-auto-var-init=pattern
